@@ -21,6 +21,7 @@ MCNext == /\ steps < MaxSteps
                                 \/ (Values(q) /\ hist' = Append(hist, [op |-> "values", c |-> q[1], s |-> q[2], e |-> q[3]]))
              \/ \E q \in Queries : (Zoom(q) /\ hist' = Append(hist, [op |-> "zoom", c |-> q[1], s |-> q[2], e |-> q[3]]))
              \/ (ToCached /\ hist' = Append(hist, [op |-> "cached", c |-> 0, s |-> 0, e |-> 0]))
+             \/ (BadChrom /\ hist' = Append(hist, [op |-> "badchrom", c |-> 0, s |-> 0, e |-> 0]))
              \/ (Reopen /\ hist' = Append(hist, [op |-> "reopen", c |-> 0, s |-> 0, e |-> 0]))
 Emit == steps = MaxSteps => PrintT(<<"REPLAY", ToJson([file |-> FileId, items |-> Items, bs |-> Fanout, hist |-> hist, zrecs |-> ZRecs])>>)
 =============================================================================
